@@ -261,12 +261,14 @@ func compiledMain(e *Env, check string, specs []PkgSpec, race bool, timeout time
 	bin, root, kept, st, err := buildDriver(e, specs, race)
 	if err != nil {
 		r := res.New()
-		r.Extra["programs"] = map[string]any{"drawn": st.Drawn, "rejected_by_goag": st.Rejected, "dropped_not_compiling": st.Dropped, "compiled": st.Kept, "dropped_why": st.DroppedWhy}
+		r.Extra["programs"] = st.Kept
+		r.Extra["programs_detail"] = map[string]any{"drawn": st.Drawn, "rejected_by_goag": st.Rejected, "dropped_not_compiling": st.Dropped, "compiled": st.Kept, "dropped_why": st.DroppedWhy}
 		return r, err
 	}
 	_ = kept
 	r, incon := runDriver(e, bin, root, check, timeout, extraEnv...)
-	r.Extra["programs"] = map[string]any{"drawn": st.Drawn, "rejected_by_goag": st.Rejected, "dropped_not_compiling": st.Dropped, "compiled": st.Kept, "dropped_why": st.DroppedWhy}
+	r.Extra["programs"] = st.Kept
+	r.Extra["programs_detail"] = map[string]any{"drawn": st.Drawn, "rejected_by_goag": st.Rejected, "dropped_not_compiling": st.Dropped, "compiled": st.Kept, "dropped_why": st.DroppedWhy}
 	if un := r.Labels["unmappable-package"]; un*20 > int64(st.Kept) {
 		incon = append(incon, fmt.Sprintf("harness could not map %d of %d packages", un, st.Kept))
 	}
